@@ -193,6 +193,29 @@ def cd2(ctx):
                       'header-room predicate is `remaining %s HEADER_LEN`, not `<`/`>=`: with exactly HEADER_LEN bytes left one side pads / skips where the other expects a header (every later entry is lost at the next open)' % {'Le': '<=', 'Gt': '>', 'Eq': '==', 'Ne': '!='}.get(c['op'], c['op']))
     if n < 3:
         ctx.missing('comparisons', 'expected 3 comparisons with HEADER_LEN in the frame writer/reader, found %d' % n)
+    # polarity on the writer side: padding is written exactly when `remaining < HEADER_LEN`
+    for b in ctx.f.bodies.values():
+        if b.generic_dup() or not b.path.startswith('frame::writer::FrameWriter'):
+            continue
+        comps = const_comparisons(ctx, b, 'frame::header::HEADER_LEN')
+        ws = [cs for cs in b.calls if cs.orig.endswith('BlockWrite::write')]
+        if len(ws) >= 2 and comps:
+            fl = flow_of(b)
+            # the padding write: its slice derives from a repeat/array constant, not from the payload parameter
+            for w in ws:
+                back = fl.backward(set(fl.op_nodes(w.args[1])), skip_mem=True) if len(w.args) > 1 else set()
+                from_param = any(('l', i) in back for i in range(2, b.arg_count + 1))
+                if from_param:
+                    continue
+                okp = False
+                for c in comps:
+                    for (bj, te, fe) in switch_on_result(b, c):
+                        lt_edge = te if c['op'] == 'Lt' else fe if c['op'] == 'Ge' else None
+                        ge_edge = fe if c['op'] == 'Lt' else te if c['op'] == 'Ge' else None
+                        if lt_edge is not None and b.edge_dominates(lt_edge, w.point) and w.point not in b.reach([ge_edge[1]], avoid=[]) or (lt_edge is not None and b.edge_dominates(lt_edge, w.point)):
+                            okp = True
+                ctx.check(okp, '%s:padding-on-lt-edge' % b.path, where(b, w.point), 'the zero padding is written on the `remaining < HEADER_LEN` edge',
+                          'the end-of-block padding is not written exactly when fewer than HEADER_LEN bytes remain (inverted or missing condition): the reader skips the tail under that condition and would lose sync')
 
 
 @rule('CD3', ['C07', 'C01', 'C18'], floor=3, template='sibling-agreement')
@@ -547,22 +570,32 @@ def taint1(ctx):
                     sinks.append(cs)
                 elif re.search(INDEX_RE, cs.name) and len(cs.args) > 1 and fl.op_tainted(cs.args[1], tnt):
                     sinks.append(cs)
-            guards = []
+            guards = []   # (safe_edge, unsafe_edge): on safe_edge the decoded quantity is <= the bound it is compared with
             for bj, blk in enumerate(b.blocks):
                 if not b.live[bj] or blk['term']['k'] != 'switch':
                     continue
                 c = b.switch_cond(bj)
                 if c and c['kind'] == 'bool':
                     for o in c['origin']:
-                        if o[0] == 'rv' and o[2]['k'] == 'binop' and o[2]['op'] in ('Lt', 'Le', 'Gt', 'Ge') and (fl.op_tainted(o[2]['a'], tnt) or fl.op_tainted(o[2]['b'], tnt)):
+                        if o[0] == 'rv' and o[2]['k'] == 'binop' and o[2]['op'] in ('Lt', 'Le', 'Gt', 'Ge'):
+                            ta, tb = fl.op_tainted(o[2]['a'], tnt), fl.op_tainted(o[2]['b'], tnt)
+                            if ta == tb:
+                                continue
                             e = b.bool_edges(bj)
-                            if e:
-                                guards.append(e)
+                            if not e:
+                                continue
+                            op = o[2]['op']
+                            # normalise to `tainted OP other`
+                            if tb:
+                                op = {'Lt': 'Gt', 'Gt': 'Lt', 'Le': 'Ge', 'Ge': 'Le'}[op]
+                            # tainted < / <= other  -> true edge is safe ; tainted > / >= other -> false edge is safe
+                            safe, unsafe = (e[0], e[1]) if op in ('Lt', 'Le') else (e[1], e[0])
+                            guards.append((safe, unsafe))
             for s in sinks:
                 n += 1
                 seen += 1
-                ok = any((b.edge_dominates(e1, s.point) and s.point not in b.reach([e2[1]])) or (b.edge_dominates(e2, s.point) and s.point not in b.reach([e1[1]])) for (e1, e2) in guards)
-                ctx.check(ok, '%s:%s:%s#%d' % (b.path, label, method_name(s.name), seen), where(b, s.point), 'sink %s dominated by a comparison on the decoded length' % method_name(s.name),
+                ok = any(b.edge_dominates(safe, s.point) and s.point not in b.reach([unsafe[1]]) for (safe, unsafe) in guards)
+                ctx.check(ok, '%s:%s:%s#%d' % (b.path, label, method_name(s.name), seen), where(b, s.point), 'sink %s dominated by the edge on which the decoded length fits' % method_name(s.name),
                           'a length read from the WAL (%s) reaches %s without a dominating bounds check: damaged bytes can cause a panic or an unbounded allocation' % (label, method_name(s.name)))
     if n < 3:
         ctx.missing('sinks', 'expected >= 3 length-sized slices/allocations, found %d' % n)
@@ -667,3 +700,82 @@ def taint2(ctx):
                       'the frame bounds check and the payload slicing do not see the same cursor: %s (a frame length within HEADER_LEN of the block end passes the check and panics in the slice)' % why)
     if n == 0:
         ctx.missing('cursor-slices', 'no cursor-based slicing guarded by a length check found in the frame reader')
+
+
+@rule('CD8', ['C07', 'C01'], floor=3, template='must-flow')
+def cd8(ctx):
+    """Every input of an encoder reaches the output buffer; the payload of a frame reaches the block writer."""
+    n = 0
+    for b in ctx.f.bodies.values():
+        if b.generic_dup() or b.is_test or b.is_closure:
+            continue
+        if not (b.path.startswith('record::') or b.path.startswith('<record::')):
+            continue
+        if not int_codec_calls(b, 'to'):
+            continue
+        fl = flow_of(b)
+        outs = [i for i in range(1, b.arg_count + 1) if b.local_ty(i).startswith('&mut std::vec::Vec<u8>')]
+        if not outs:
+            continue
+        sink_nodes = set()
+        for cs in b.calls:
+            al = cs.arg_local(0)
+            if al is not None and b.local_ty(al).startswith('&mut std::vec::Vec<u8>') and re.search(r'Vec::<u8>::(push|extend_from_slice|extend|append|insert|resize)$|Extend<.*>>::extend', cs.name):
+                for a in cs.args[1:]:
+                    sink_nodes |= fl.backward(set(fl.op_nodes(a)), skip_mem=True)
+        def content_root(l, depth=0):
+            # follow re-borrows and content-preserving views (as_bytes, deref, as_ref, chunk) back to a parameter
+            if l is None or depth > 10:
+                return None
+            if 1 <= l <= b.arg_count and not b.defs.get(l):
+                return l
+            for (p_, kind, data) in b.defs.get(l, []):
+                if kind == 'call' and method_name(data.name) in ('as_bytes', 'deref', 'as_ref', 'as_slice', 'as_str', 'chunk', 'borrow'):
+                    return content_root(data.arg_local(0), depth + 1)
+                if kind == 'assign' and not data['place']['p']:
+                    rv = data['rv']
+                    pl = rv['place'] if rv['k'] == 'ref' else (rv['op']['place'] if rv['k'] in ('use', 'cast') and rv['op']['k'] in ('copy', 'move') else None)
+                    if pl is not None and all(e['k'] == 'deref' for e in pl['p']):
+                        return content_root(pl['l'], depth + 1)
+            return None
+        content_params = set()
+        for cs in b.calls:
+            al = cs.arg_local(0)
+            if al is not None and b.local_ty(al).startswith('&mut std::vec::Vec<u8>') and re.search(r'Vec::<u8>::(push|extend_from_slice|extend|append|insert|resize)$|Extend<.*>>::extend', cs.name):
+                for a in cs.args[1:]:
+                    r_ = content_root(op_local(a))
+                    if r_ is not None:
+                        content_params.add(r_)
+        for i in range(1, b.arg_count + 1):
+            if i in outs:
+                continue
+            n += 1
+            nm = b.debug_names.get(i, '_%d' % i)
+            ty = b.local_ty(i)
+            if ty in ('&str', '&[u8]') and not b.path.endswith('serialize_with_pos'):
+                ctx.check(i in content_params, '%s:input:%s' % (b.path, nm), b.span, 'the bytes of `%s` are appended to the output buffer' % nm,
+                          'the content of encoder input `%s` is never appended to the output buffer (only derived values such as its length are): the field would be missing from the WAL entry' % nm)
+                continue
+            ctx.check(('l', i) in sink_nodes, '%s:input:%s' % (b.path, nm), b.span, 'encoder input `%s` is appended to the output buffer' % nm,
+                      'encoder input `%s` never reaches the output buffer: the field would be missing from the WAL entry' % nm)
+    # frame writer: payload and header both reach the slice written
+    for b in ctx.f.bodies.values():
+        if b.generic_dup() or not b.path.startswith('frame::writer::FrameWriter'):
+            continue
+        ws = [cs for cs in b.calls if cs.orig.endswith('BlockWrite::write')]
+        pay = [i for i in range(2, b.arg_count + 1) if b.local_ty(i) == '&[u8]']
+        if not ws or not pay:
+            continue
+        fl = flow_of(b)
+        n += 1
+        t = fl.forward(set(fl.local_sources(pay[0])))
+        hdr = [cs for cs in b.calls if cs.path.endswith('Header::for_payload')]
+        th = set()
+        for h in hdr:
+            th |= fl.forward(set(fl.call_result_nodes(h)))
+        okp = any(len(w.args) > 1 and fl.op_tainted(w.args[1], t) for w in ws)
+        okh = bool(hdr) and any(len(w.args) > 1 and fl.op_tainted(w.args[1], th) for w in ws)
+        ctx.check(okp and okh, '%s:frame-content' % b.path, b.span, 'the slice handed to the block writer carries the header and the payload',
+                  'the frame handed to the block writer does not contain the %s' % ('payload' if not okp else 'header'))
+    if n < 3:
+        ctx.missing('encoders', 'expected the record / batch encoders and the frame writer')
